@@ -74,6 +74,7 @@ CONFIGS = [
     ("it3_live", "MC_Flurry", "MC_it3_live.cfg", {"C11"}, "ok", "thorough", []),
     ("list3_live", "MC_Flurry", "MC_list3_live.cfg", {"C11"}, "ok", "thorough", []),
     ("tree1_live", "MC_Flurry", "MC_tree1_live.cfg", {"C11"}, "ok", "thorough", []),
+    ("rt1_live", "MC_Flurry", "MC_rt1_live.cfg", {"C11"}, "ok", "thorough", []),
     ("sizing", "Sizing", "Sizing.cfg", {"C14", "C10"}, "ok", "quick", []),
     ("reclaim", "Reclaim", "MC_Reclaim.cfg", {"C03", "C04"}, "ok", "quick", []),
     ("reclaim_unprotected", "Reclaim", "MC_Reclaim_unprotected.cfg", {"C03"}, "NoUseAfterFree", "quick", []),
